@@ -30,6 +30,7 @@ OUTSIDE = ['batches of more than 4 calls', 'string request ids in batches']
 ASSUMPTIONS = []
 BUDGET = {'quick': 40.0, 'thorough': 150.0}
 RESP_ELEMS = ('ok_i', 'err_i', 'ok_s', 'ok_n')
+# 'err_n' (a null-id ERROR element) is used in targeted obligations only
 
 
 def setup():
@@ -62,6 +63,9 @@ def obligations(tier):
                     for notif in ((False, True) if ncalls == 2 else (False,)):
                         obs.append({'h': 'batch', 'ncalls': ncalls, 'els': list(combo), 'notif': notif, 'strict': strict,
                                     'kind': kind, '_weight': 4 ** n})
+                        if n == ncalls and set(combo) <= {'ok_i'} and ncalls <= 2:
+                            obs.append({'h': 'batch', 'ncalls': ncalls, 'els': list(combo) + ['err_n'], 'notif': notif, 'strict': strict,
+                                        'kind': kind, '_weight': 4 ** n})
                         if ncalls == 2 and n <= 2 and set(combo) <= {'ok_i'} and strict:
                             obs.append({'h': 'batch', 'ncalls': ncalls, 'els': list(combo), 'notif': notif, 'strict': strict,
                                         'kind': kind, 'resend': 1, '_weight': 4 ** n})
@@ -279,6 +283,9 @@ def h_batch(ob):
             elif k == 'ok_s':
                 body.append({'jsonrpc': '2.0', 'id': env.str(f'sid{j}', 2), 'result': env.int(f'r{j}')})
                 tags.append('s')
+            elif k == 'err_n':
+                body.append({'jsonrpc': '2.0', 'id': None, 'error': {'code': 300 + j, 'message': 'unattributed'}})
+                tags.append('n')
             else:
                 body.append({'jsonrpc': '2.0', 'id': None, 'result': env.int(f'r{j}')})
                 tags.append('n')
@@ -322,6 +329,12 @@ def h_batch(ob):
             if r['id'] is not None:
                 by_id[r['id']] = r
         errs = [by_id[c]['error']['code'] for c in call_ids if 'error' in by_id[c]]
+        if 'err_n' in ob['els']:
+            # the statement is silent on whether a surplus null-id response is accepted; but once accepted, a server ERROR it
+            # carries must not vanish: it is kept in the response and raised when the results are read
+            if len([r for r in resp if r.id is None and r.is_error]) != ob['els'].count('err_n'):
+                raise Violation('null-id-error-response-dropped', body)
+            errs = errs + [r['error']['code'] for r in body if r['id'] is None and 'error' in r]
         try:
             tup = resp.result
             if errs:
